@@ -140,6 +140,7 @@ fn main() {
                 std::process::exit(2)
             });
             rt::sched();
+            rt::start_hang_watchdog();
             let (findings, ex, known_hits) = runner::replay(def, &vr, &known);
             let same_trace = runner::rle(&ex.outcome.trace) == vr.trace_rle;
             let out = serde_json::json!({
